@@ -114,14 +114,14 @@ def exc_id():
     where = "?"
     for fs in traceback.extract_tb(tb):
         if os.path.abspath(fs.filename).startswith(os.path.abspath(REPO) + os.sep):
-            where = "%s.%s" % (os.path.splitext(os.path.basename(fs.filename))[0], fs.name)
+            where = "%s.%s" % (os.path.splitext(os.path.relpath(os.path.abspath(fs.filename), os.path.abspath(REPO)))[0].replace(os.sep, "."), fs.name)
     name = getattr(et, "__name__", "?")
     if where == "?":
         # 'python -m kconfgen' failed: run_main() put the tail of the child's traceback into the message
         text = str(ev)
         for m in re.finditer(r'File "([^"]+)", line \d+, in (\S+)', text):
             if os.path.abspath(m.group(1)).startswith(os.path.abspath(REPO) + os.sep):
-                where = "%s.%s" % (os.path.splitext(os.path.basename(m.group(1)))[0], m.group(2))
+                where = "%s.%s" % (os.path.splitext(os.path.relpath(os.path.abspath(m.group(1)), os.path.abspath(REPO)))[0].replace(os.sep, "."), m.group(2))
         m = re.search(r"^([A-Za-z_][A-Za-z0-9_.]*(?:Error|Exception)):", text, re.M)
         if m and where != "?":
             name = m.group(1).split(".")[-1]
@@ -338,7 +338,7 @@ def read_header(text, types, alias_types):
     defined expands to an undefined identifier (not defined / n for the build); the documented inverted form
     '!CONFIG_NEW' with CONFIG_NEW not defined is '!0' = 1 for the preprocessor, i.e. y, when the alias is a bool.
     """
-    main, links = {}, []
+    main, links, lits = {}, [], []
     for line in text.split("\n"):
         m = re.match(r"^#define CONFIG_([A-Za-z0-9_]+) ?(.*)$", line)
         if not m:
@@ -348,15 +348,21 @@ def read_header(text, types, alias_types):
         if m2 and name not in types:
             links.append((name, m2.group(2), m2.group(1) == "!"))
             continue
-        typ = types.get(name, "?")
+        is_alias = name not in types and name in alias_types  # an alias defined with a literal: same encodings, its own map
+        typ = alias_types[name] if is_alias else types.get(name, "?")
         if typ == "bool":
             val = "y" if rhs == "1" else ("bad", rhs)
         elif typ == "hex":
             val = canon_text("hex", rhs) if (rhs == "" or rhs.lower().startswith("0x")) else ("bad", rhs)
         else:
             val = canon_text(typ, rhs)
-        multi_add(main, name, val)
+        if is_alias:
+            lits.append((name, val))
+        else:
+            multi_add(main, name, val)
     dep = {}
+    for name, val in lits:
+        multi_add(dep, name, val)
     for name, target, inv in links:
         vals = main.get(target)
         if not vals:
@@ -435,7 +441,8 @@ C07_CONTRACTS = [
     "{option: Symbol.str_value | Symbol.config_string != ''}, every name has ONE value, and its deprecated block to "
     "{alias: value of the replacement named by the alias's own last rename line, negated iff that line has '!'}",
     "Kconfig.write_autoconf(write_deprecated=True) [kconfgen.core.write_header]: the header, read as the preprocessor reads it, "
-    "defines exactly the non-n options with their values and every alias with its replacement's (negated iff '!') value",
+    "defines exactly the non-n options with their values and every alias with its replacement's (negated iff '!') value "
+    "(alias forms read: '#define OLD [!]CONFIG_NEW' evaluated in the same header -- '!CONFIG_NEW' with CONFIG_NEW undefined is 1 -- or a literal)",
     "kconfgen.core.write_cmake: set() lines decode to the same option map and alias map; CONFIGS_LIST names exactly the variables set",
     "kconfgen.core.get_json_values / write_json: same option map; the file equals json of get_json_values()",
     "Kconfig.sync_deps: <dir>/auto.conf decodes to the same option map (bool n = absent)",
